@@ -60,6 +60,11 @@ def generate(tier, seed):
                     # the same model reached through a dimension change on a live object must generate what a fresh model generates
                     cases.append(("formula", dict(base, gen=str(rng.choice(["RandMeth", "Fourier"])), structured=False, via_dim=int(rng.choice(other)))))
                 cases.append(("wave_vectors", dict(base, N={"quick": 256, "thorough": 1024}[tier], S={"quick": 120, "thorough": 300}[tier])))
+    for name, dim in (("Gaussian", 3), ("Exponential", 3), ("Gaussian", 2), ("Exponential", 1)):
+        # sampling="inversion" requested by the user: where the model has no ppf the radial cdf is inverted numerically
+        d = common.draw_model(rng, name, dim, "interior", aniso=True, nugget=False)
+        d["nugget"] = 0.0
+        cases.append(("wave_vectors", {"model": d, "cseed": int(rng.integers(1 << 30)), "N": 256, "S": {"quick": 40, "thorough": 150}[tier], "sampling": "inversion"}))
     for name in ("Gaussian", "Exponential", "Matern", "Integral", "TPLGaussian", "HyperSpherical"):
         for dim in (1, 2, 3):
             d = common.draw_model(rng, name, dim, "interior", aniso=True, nugget=False)
@@ -135,7 +140,8 @@ def check_formula(ctx, c):
             warnings.simplefilter("ignore")
             u = np.asarray(srf.structured(axes if dim > 1 else axes[0])).reshape(-1)
     else:
-        x = rng.uniform(-5, 5, size=(dim, 9)) * d["len_scale"]
+        # with a nugget the field minus the spectral sum is white noise: enough points to pin its variance to +-16 % (7 sigma)
+        x = rng.uniform(-5, 5, size=(dim, 4000 if d["nugget"] > 0 else 9)) * d["len_scale"]
         with warnings.catch_warnings():
             warnings.simplefilter("ignore")
             u = np.asarray(srf(x if dim > 1 else x[0]))
@@ -169,10 +175,20 @@ def check_formula(ctx, c):
         # the nugget part is white noise from the generator's stream: subtract what the formula leaves and test its moments
         noise = u - want
         ctx.event("field_formula_points", u.size)
-        if u.size >= 9:
-            m, sd = float(np.mean(noise)), math.sqrt(d["nugget"])
-            if not abs(m) <= 7 * sd / math.sqrt(u.size) or not (0.05 * d["nugget"] < float(np.var(noise)) < 6.0 * d["nugget"]):
-                ctx.fail(dict(mech, what="nugget-part"), f"field minus spectral sum: mean {m:.3f}, var {np.var(noise):.3f}; nugget {d['nugget']}")
+        n = u.size
+        m, sd = float(np.mean(noise)), math.sqrt(d["nugget"])
+        rel = 7 * math.sqrt(2.0 / max(n - 1, 1))
+        ctx.resolve("nugget_variance_rel_resolution", rel)
+        if n >= 9 and not (abs(m) <= 7 * sd / math.sqrt(n) and abs(float(np.var(noise, ddof=1)) - d["nugget"]) <= max(rel, 0.0) * d["nugget"] + (0 if n >= 1000 else 5.0 * d["nugget"])):
+            ctx.fail(dict(mech, what="nugget-part"), f"field minus spectral sum over {n} points: mean {m:.4f}, var {np.var(noise, ddof=1):.4f}; nugget {d['nugget']} (+-{rel * d['nugget']:.4f})")
+            return
+        if n >= 1000:
+            z = np.sort(noise / sd)
+            eps = math.sqrt(math.log(2 * NTESTS / ALPHA_RUN) / (2 * n))
+            phi = ndtr(z)
+            dist = max(float(np.max(np.abs(np.arange(1, n + 1) / n - phi))), float(np.max(np.abs(np.arange(0, n) / n - phi))))
+            if not dist <= eps:
+                ctx.fail(dict(mech, what="nugget-noise-not-normal(0,nugget)"), f"sup |F_n - Phi| = {dist:.4f} > {eps:.4f} (n={n})")
         return
     kmax = common.maxabs(k)
     tol = (1e-12 + 100 * 2.3e-16 * kmax * common.maxabs(x) * math.sqrt(k.shape[1])) * max(1.0, common.maxabs(want))
@@ -201,7 +217,7 @@ def check_wave_vectors(ctx, c):
     dim, N, S = d["dim"], c["N"], c["S"]
     rng = np.random.default_rng(c["cseed"])
     model = common.build_model(d)
-    inversion = bool(model.has_ppf)
+    inversion = bool(model.has_ppf) or c.get("sampling") == "inversion"
     numeric = d["name"] not in common.ANALYTIC_SPECTRUM
     if not inversion:
         S = max(40, S // 3)
@@ -210,7 +226,7 @@ def check_wave_vectors(ctx, c):
     hiso = _iso(d, lags)
     r = np.linalg.norm(hiso, axis=0)
     rho = np.array([float(ocov.correlation(d, v)) for v in r])
-    ctx.cell(f"wave_vectors/{d['name']}/dim{dim}/{'inversion' if inversion else 'mcmc'}")
+    ctx.cell(f"wave_vectors/{d['name']}/dim{dim}/{'inversion' if inversion else 'mcmc'}{'(forced)' if c.get('sampling') else ''}")
     mech = {"model": d["name"], "dim": dim, "path": "inversion" if inversion else "mcmc", "spectrum": "numerical" if numeric else "analytic"}
     results = {}
     if not inversion and numeric:
@@ -223,7 +239,7 @@ def check_wave_vectors(ctx, c):
             with warnings.catch_warnings():
                 warnings.simplefilter("ignore")
                 with np.errstate(all="ignore"):
-                    g = gs.field.generator.RandMeth(model, mode_no=nmodes, seed=int(rng.integers(1, 1 << 30)), sampling="auto" if inversion else "mcmc")
+                    g = gs.field.generator.RandMeth(model, mode_no=nmodes, seed=int(rng.integers(1, 1 << 30)), sampling=c.get("sampling") or ("auto" if inversion else "mcmc"))
             k = np.asarray(g._cov_sample)
             if not np.all(np.isfinite(k)):
                 ctx.fail(dict(mech, what="non-finite-wave-vector-sampled", mode_no=nmodes),
